@@ -32,7 +32,12 @@ def gen_headers(dst, repo=REPO, hashes_enabled=None, compat_abi=None):
     ca = compat_abi if compat_abi is not None else mv["COMPAT_ABI"]
     S = os.path.join(repo, "build-aux/scripts")
     env = dict(os.environ, LC_ALL="C")
-    shutil.copy(os.path.join(repo, "config.h"), os.path.join(dst, "config.h"))
+    cfg = open(os.path.join(repo, "config.h")).read()
+    if ca == "no" and mv["COMPAT_ABI"] != "no":
+        # configure.ac: without descrypt the obsolete APIs (and the SUSE compat symbols) are switched off
+        cfg = re.sub(r"#define ENABLE_OBSOLETE_API 1", "#define ENABLE_OBSOLETE_API 0", cfg)
+        cfg = re.sub(r"#define ENABLE_COMPAT_SUSE 1", "#define ENABLE_COMPAT_SUSE 0", cfg)
+    open(os.path.join(dst, "config.h"), "w").write(cfg)
     def perl(script, args, out):
         r = subprocess.run(["perl", os.path.join(S, script)] + args, text=True,
                            capture_output=True, env=env, cwd=dst)
